@@ -267,7 +267,7 @@ def search(rep: C.Report, tier: str, broken):
                         worst = (e, i)
                 rep.case(key=(kind, errTol, branch, round(vw, 2), shape), sample=dict(info, worst_rel_residual=worst[0]) if len(rep.samples) < 4 else None)
                 # the bracketed root is found to rtol = errTol/10 in T; T33 ~ T^4 => residual up to ~4 errTol/10 of c2
-                if worst[0] > errTol:
+                if not worst[0] <= errTol:
                     i = worst[1]
                     # second stage: BACKWARD error.  The root finder stops when T is within xtol + rtol*T (rtol = errTol/10) of a root; near the
                     # sonic point the residual is steep in T.  Recompute T33 along the T30 constraint at T(1 -+ 4 rtol): a sign change means
@@ -295,7 +295,7 @@ def search(rep: C.Report, tier: str, broken):
                 # far in front / behind: tends to the matching values
                 ends = ((Tprof[-1], vprof[-1], Tp, -vp, "front"), (Tprof[0], vprof[0], Tm, -vm, "behind")) if not with_moments else ()
                 for Tg, vg, Tw, vwant, where in ends:
-                    if abs(Tg - Tw) > 2e-3 * Tw or abs(vg - vwant) > 2e-3:
+                    if not abs(Tg - Tw) <= 0.002 * Tw or not abs(vg - vwant) <= 0.002:
                         rep.violation(f"profile far {where} the wall does not tend to the hydrodynamic matching values",
                                       dict(info, where=where, T_grid=float(Tg), v_grid=float(vg), T_matching=float(Tw), v_matching=float(vwant)),
                                       finding_key=f"C04:asymptotics:{where}:{branch}")
